@@ -898,8 +898,16 @@ def _part_detect(case, ctx):
         rs = np.random.RandomState(case["seed"])
         specs += [_rand_sample(sclass, rs) for _ in range(case["extra"])]
     z = _make_samples(c, sclass, specs)
+    real_in = int(case.get("seed", 1)) % 4 == 0
+    if real_in:
+        # samples on the real axis handed over as a REAL-dtype array (the
+        # in-phase branch of a receiver, a float recording)
+        z = z.real + 0j
     arr, layout = _arrange(z, case["layout"])
-    flat = np.asarray(arr).reshape(-1)
+    if real_in:
+        arr = np.array(np.asarray(arr).real, dtype=float)
+        layout += "+real_dtype"
+    flat = np.asarray(arr).reshape(-1).astype(complex)
     tags = _tags(cfg, sclass=sclass, layout=layout)
 
     got = mod.demodulate(arr)
